@@ -330,6 +330,7 @@ def arr_setitem(I, st, base: Ref, sl, val, node=None):
                 raise Unsupported("assignment value has too many axes")
         else:
             nv = val
+        nv = _store_cast(a, nv)
         o = old(*idx)
         if isinstance(cond, bool):
             return nv if cond else o
@@ -341,6 +342,17 @@ def arr_setitem(I, st, base: Ref, sl, val, node=None):
             if I.concrete_int(y) != 1:
                 _dims_equal(I, st, x, y, node)
     st.heap[base.rid] = Arr(a.shape, elem, kind=a.kind, etype=a.etype)
+
+
+def _store_cast(a: Arr, v):
+    """NumPy casts on assignment: a real stored into an INTEGER ndarray is truncated toward zero (lists keep the value)."""
+    if a.kind == "ndarray" and a.etype in ("int", "nat") and is_num(v):
+        z = to_z3(v)
+        if z3.is_real(z):
+            used("ndarray[int] element store: the value is truncated toward zero (dtype cast)")
+            fl = z3.ToInt(z)
+            return z3.If(z >= 0, fl, z3.If(z3.ToReal(fl) == z, fl, fl + 1))
+    return v
 
 
 def _ite_arr(c, a: Arr, b: Arr):
